@@ -187,9 +187,53 @@ def iterations(fe, item, obs):
 
 def ctx_specs(r):
     k = r.random()
+    zm = r.random() < 0.6
     if k < 0.5:
-        return {"single": True, "units": [0], "size": 16}
-    return {"single": False, "units": r.choice([[1], [1, 2], [0, 3], [2, 17, 247]]), "size": 16}
+        return {"single": True, "units": [0], "size": 16, "base": 0, "zero_mode": zm}
+    return {"single": False, "units": r.choice([[1], [1, 2], [0, 3], [2, 17, 247]]), "size": 16, "base": 0, "zero_mode": zm}
+
+
+# contexts for the boundary sessions: the default-like 65536-cell tables (address field 0xFFFE/0xFFFF
+# is the top) and small blocks with a non-zero base, each with both zero_mode settings
+BOUNDARY_CTX = [{"single": True, "units": [0], "size": 65536, "base": 0, "zero_mode": False},
+                {"single": True, "units": [0], "size": 65536, "base": 0, "zero_mode": True},
+                {"single": True, "units": [0], "size": 8, "base": 10, "zero_mode": False},
+                {"single": True, "units": [0], "size": 8, "base": 10, "zero_mode": True},
+                {"single": True, "units": [0], "size": 16, "base": 0, "zero_mode": False},
+                {"single": False, "units": [1, 2], "size": 8, "base": 3, "zero_mode": False}]
+
+
+def pdu_at(r, kind, addr):
+    if kind in ("r1", "r3"):
+        return L.pdu_read(int(kind[1]), addr, r.choice([1, 2]))
+    if kind == "w5":
+        return L.pdu_write_coil(addr, r.random() < 0.5)
+    if kind == "w6":
+        return L.pdu_write_reg(addr, r.randrange(1, 65536))
+    if kind == "w15":
+        return L.pdu_write_coils(addr, [r.randrange(2) for _ in range(r.choice([1, 2]))])
+    if kind == "w16":
+        return L.pdu_write_regs(addr, [r.randrange(1, 65536) for _ in range(r.choice([1, 2]))])
+    if kind == "w22":
+        return L.pdu_mask(addr, r.randrange(65536), r.randrange(65536))
+    return L.pdu_rwm(addr, 1, addr, [r.randrange(1, 65536) for _ in range(r.choice([1, 2]))])
+
+
+def boundary_addresses(spec):
+    """wire addresses around the first and the last cell of the configured tables"""
+    off = 0 if spec["zero_mode"] else 1
+    lo, top = spec["base"] - off, spec["base"] + spec["size"] - off     # first valid wire address, first invalid one
+    cands = [lo - 1, lo, lo + 1, top - 3, top - 2, top - 1, top, top + 1, 0xFFFE, 0xFFFF]
+    return sorted(set(a for a in cands if 0 <= a <= 0xFFFF))
+
+
+def boundary_items(r, framer, spec, uid):
+    items = []
+    for a in boundary_addresses(spec):
+        for kind in r.sample(["w5", "w6", "w15", "w16", "w22", "w23", "r1", "r3"], 4):
+            items.append(("edge/%s@%d" % (kind, a), [L.frame(framer, r.randrange(65536), uid, pdu_at(r, kind, a))]))
+    r.shuffle(items)
+    return items
 
 
 FRAMING = {"socket": "FSocket", "ascii": "FAscii", "binary": "FBinary", "tls": "FTls"}
@@ -213,10 +257,11 @@ def truncation_items(r, framer, fc, uid, size):
     return [("trunc@%d/fc%d" % (k, fc), [L.frame(framer, r.randrange(65536), uid, pdu[:k])]) for k in range(1, len(pdu))]
 
 
-def run_session(r, fe, framer, hostile_kinds, tier, trunc_fc=None, wd=None):
+def run_session(r, fe, framer, hostile_kinds, tier, trunc_fc=None, wd=None, boundary=None):
     """-> dict(ladder=[Case], store=Case|None, probe=Case|None, py=[python-side failure descs], keys=[...])"""
-    spec = ctx_specs(r)
-    cfg = {"broadcast_enable": r.random() < 0.3, "ignore_missing_slaves": r.random() < 0.3}
+    spec = dict(boundary) if boundary is not None else ctx_specs(r)
+    cfg = {"broadcast_enable": r.random() < 0.3 and boundary is None, "ignore_missing_slaves": r.random() < 0.3}
+    off = 0 if spec.get("zero_mode", True) else 1
     script = []
     if wd is not None:
         wd.update(fe=fe, framer=framer, ctx=spec, cfg=cfg, script=script)
@@ -233,13 +278,16 @@ def run_session(r, fe, framer, hostile_kinds, tier, trunc_fc=None, wd=None):
             uid0 = r.choice(units_hosted) if not spec["single"] else r.choice([0, 1, 7])
             items = truncation_items(r, framer, trunc_fc, uid0, spec["size"])
             hostile_kinds = []
+        if boundary is not None:
+            items = boundary_items(r, framer, spec, r.choice(units_hosted) if not spec["single"] else 1)
+            hostile_kinds = []
         for hk in hostile_kinds:
             uid = r.choice(units_hosted + [r.choice(units_hosted)] * 2 + [r.choice([0, 1, 9, 255])])
             if r.random() < 0.7:
                 items.append(("valid", [L.frame(framer, r.randrange(65536), r.choice(units_hosted),
                                                 valid_pdu(r, r.choice(VALID_KINDS), spec["size"]))]))
             items.append((hk, hostile(r, hk, framer, uid, spec["size"])))
-        if fe in ("SyncTcp", "SyncSerial") and trunc_fc is None:
+        if fe in ("SyncTcp", "SyncSerial") and trunc_fc is None and boundary is None:
             k = r.random()
             if k < 0.25:
                 items.insert(r.randrange(len(items) + 1), ("timeout", [socket.timeout("timed out")]))
@@ -249,7 +297,7 @@ def run_session(r, fe, framer, hostile_kinds, tier, trunc_fc=None, wd=None):
                 items.insert(r.randrange(len(items) + 1), ("empty", [b""]))
             elif k < 0.7:
                 items.append(("sendfault", [L.frame(framer, 7, units_hosted[0], L.pdu_read(3, 0, 1))]))
-        if fe == "SyncUdp" and r.random() < 0.2:
+        if fe == "SyncUdp" and r.random() < 0.2 and boundary is None:
             items.append(("empty", [b""]))
         for kind, chunks in items:
             for ch in chunks:
@@ -289,8 +337,12 @@ def run_session(r, fe, framer, hostile_kinds, tier, trunc_fc=None, wd=None):
                 out["py"].append({"what": "input table changed", "cell": [u, t, a, old, new], "fe": fe, "framer": framer})
         # ---- store case (MBAP framing: the Coq oracle scans the received bytes for contained writes)
         if framer in FRAMING:
-            sterm = ("{| sc_framing := %s; sc_single := %s; sc_bcast := %s; sc_streams := %s; sc_cells := %s; sc_steps := %s |}" % (
+            extents = lst("(%s, %s, %s, %s)" % (z(u), z(t), z(spec.get("base", 0)), z(spec.get("base", 0) + spec["size"]))
+                          for u in ([0] if spec["single"] else sorted(spec["units"])) for t in range(4))
+            sterm = ("{| sc_framing := %s; sc_single := %s; sc_bcast := %s; sc_zero_mode := %s; sc_extents := %s; "
+                     "sc_streams := %s; sc_cells := %s; sc_steps := %s |}" % (
                 FRAMING[framer], boolean(spec["single"]), boolean(cfg["broadcast_enable"]),
+                boolean(spec.get("zero_mode", True)), extents,
                 lst(blist(s) for _, s in sorted(streams.items()) if s),
                 lst("{| ce_unit := %s; ce_table := %s; ce_addr := %s; ce_old := %s; ce_new := %s |}" % tuple(z(x) for x in c)
                     for c in run.cells),
@@ -311,7 +363,13 @@ def run_session(r, fe, framer, hostile_kinds, tier, trunc_fc=None, wd=None):
             return out      # the TLS framing carries no unit id: every request is unit 0 = broadcast
         pu = r.choice(cand)
         pa, pn, ptid = r.randrange(0, 12), r.randrange(1, 4), r.randrange(1, 65536)
-        vals = dump[0 if spec["single"] else pu]["hr"][pa:pa + pn]
+        base, size = spec.get("base", 0), spec["size"]
+        if boundary is not None:      # probe the top of the table: last cells and the first address beyond
+            pa, pn = r.choice([base + size - off - 2, base + size - off - 1, base + size - off]), r.choice([1, 2])
+            pa = max(0, min(pa, 0xFFFF))
+        # validity is decided against the CONFIGURED table (the cells that exist before any request)
+        pvalid = base <= pa + off and pa + off + pn <= base + size
+        vals = dump[0 if spec["single"] else pu]["hr"][pa + off - base:pa + off - base + pn] if pvalid else []
         probe = L.frame(framer, ptid, pu, L.pdu_read(3, pa, pn))
         pcid = 1000
         leftover = None
@@ -328,7 +386,7 @@ def run_session(r, fe, framer, hostile_kinds, tier, trunc_fc=None, wd=None):
         script.append("probe:" + probe.hex())
         pobs = run.feed(pcid, probe)
         answer = [bytes(o) for o in pobs.out]
-        expect_pdu = L.expected_read_response_pdu(3, vals)
+        expect_pdu = L.expected_read_response_pdu(3, vals) if pvalid else bytes([0x83, 0x02])
         expect = L.frame(framer, ptid if framer in ("socket",) else 0, pu, expect_pdu, escape=True)
         pdesc = {"fe": fe, "framer": framer, "ctx": spec, "cfg": cfg, "history": steps[-8:], "probe": probe.hex(),
                  "answer": [a.hex() for a in answer], "expected": expect.hex(), "leftover": leftover.hex() if leftover else "",
@@ -348,8 +406,8 @@ def run_session(r, fe, framer, hostile_kinds, tier, trunc_fc=None, wd=None):
                 run2.close()
             pdesc["fresh_answer"] = [a.hex() for a in fresh]
             if framer == "socket":
-                pterm = ("{| pc_tid := %s; pc_uid := %s; pc_fc := 3; pc_vals := %s; pc_answer := %s; pc_fresh_answer := %s |}" % (
-                    z(ptid), z(pu), zlist(vals), lst(blist(a) for a in answer), lst(blist(a) for a in fresh)))
+                pterm = ("{| pc_tid := %s; pc_uid := %s; pc_fc := 3; pc_valid := %s; pc_vals := %s; pc_answer := %s; pc_fresh_answer := %s |}" % (
+                    z(ptid), z(pu), boolean(pvalid), zlist(vals), lst(blist(a) for a in answer), lst(blist(a) for a in fresh)))
                 out["probe"] = Case(pterm, pdesc, kind="%s/probe" % fe, nontrivial=True)
             else:
                 if answer != [expect]:
@@ -440,6 +498,25 @@ def build(tier):
                         probe.append(s["probe"])
                     py += s["py"]
                     keys += s["keys"]
+    # boundary traffic: reads and writes around the first and the last cell of the configured tables
+    # (0xFFFE/0xFFFF against 65536-cell tables, small blocks with a non-zero base, both zero_mode settings)
+    for fe in L.FRONTENDS:
+        for framer in (("socket", "ascii") if tier == "quick" else ("socket", "ascii", "binary", "tls")):
+            for bspec in BOUNDARY_CTX:
+                if framer != "socket" and bspec["size"] > 100:
+                    continue
+                if framer == "tls" and not bspec["single"]:
+                    continue
+                wd = {"boundary": bspec}
+                with watchdog("C12", wd):
+                    s = run_session(r, fe, framer, [], tier, wd=wd, boundary=bspec)
+                ladder += s["ladder"]
+                if s["store"] is not None:
+                    store.append(s["store"])
+                if s["probe"] is not None:
+                    probe.append(s["probe"])
+                py += s["py"]
+                keys += s["keys"]
     _CACHE[tier] = (ladder, store, probe, py, keys)
     return _CACHE[tier]
 
